@@ -467,6 +467,9 @@ func check(id, tier string) int {
 					Runs: tc.runs, WallSec: tc.wallSec, Out: filepath.Join(scratch, fmt.Sprintf("out-%s-%d.json", c.name, sh)),
 					ReplayDir: replayDir, Params: c.params, DetPct: tc.detPct, RepoHead: head, Known: knownPats}
 				timeout := time.Duration(tc.wallSec*float64(time.Second))*3 + 10*time.Minute
+				if c.params["enumerate"] == true {
+					timeout += 40 * time.Minute // one evaluation enumerates a whole single-fault space and cannot be cut short
+				}
 				wo, output, err := runWorker(bw.bin, wc, timeout, race)
 				mu.Lock()
 				defer mu.Unlock()
